@@ -1,13 +1,15 @@
 """Translation tie: the Lean definitions GENERATED from the Python source (harness/py2lean.py) and the
 kernel-checked theorems (lean/DswModel/Tie/*) that they compute the hand-written model.
 
-On every run the source in $DSW_REPO is translated again.
+On every run the sources in $DSW_REPO are translated again (dsw/operation.py, dsw/spiderweb.py).
  * identical to the committed lean/DswModel/Gen/<Module>.lean  -> the tie theorems that `lake build`
    compiled (and the audit re-examined) are about exactly what the code says now: `holds`;
- * different -> the tie theorems are re-checked by Lean against the NEW definitions in a scratch
-   copy of the build (the main build is never touched): every module that still compiles keeps its
-   theorems (`holds-rechecked`), the others are `broken` (named, with Lean's first error);
- * outside the translator's fragment -> `unavailable` (reason given).
+ * different -> the tie theorems downstream of the changed module are re-checked by Lean against the
+   NEW definitions in a scratch copy of the build (the main build is never touched): every module that
+   still compiles keeps its theorems (`holds-rechecked`), the others are `broken` (named, with Lean's
+   first error);
+ * a function outside the translator's fragment is simply absent from the generated module, so the tie
+   module that mentions it no longer compiles (`broken`); a source that does not parse is `unavailable`.
 A broken or unavailable translation tie is not a verdict: the property's theorems stay tied to the code
 by the differential correspondence, which runs on every invocation in any case (DESIGN.md §11); the
 check then runs with the enlarged budget used for changed sources and records the state in the evidence.
@@ -23,10 +25,12 @@ import time
 import core
 import py2lean
 
+# generated modules, in dependency order
+GEN = [("operation", "dsw/operation.py", "DswModel.Gen.Operation"),
+       ("spiderweb", "dsw/spiderweb.py", "DswModel.Gen.Spiderweb")]
+
 TIES = {
     "operation": {
-        "source": "dsw/operation.py",
-        "gen_module": "DswModel.Gen.Operation",
         # function -> (module, theorems)
         "theorems": {
             "calculus_addition": ("DswModel.Tie.OpAdd", ["tie_calculus_addition"]),
@@ -40,15 +44,24 @@ TIES = {
         },
         "extra_modules": ["DswModel.Tie.Corollaries"],
     },
+    "spiderweb": {
+        "theorems": {
+            "set_vt": ("DswModel.Tie.SwVt", ["tie_set_vt"]),
+            "encode": ("DswModel.Tie.SwEncode", ["tie_encode"]),
+            "decode": ("DswModel.Tie.SwDecode", ["tie_decode"]),
+        },
+        "extra_modules": [],
+    },
 }
 
 
-def obligations(name):
-    """module:theorem strings of a tie, for the axiom audit."""
+def obligations(name, functions=None):
+    """module:theorem strings of a tie (restricted to `functions` when given), for the axiom audit."""
     t = TIES[name]
     out = []
     for fn, (mod, ths) in sorted(t["theorems"].items()):
-        out += ["%s:Dsw.Tie.%s" % (mod, th) for th in ths]
+        if functions is None or fn in functions:
+            out += ["%s:Dsw.Tie.%s" % (mod, th) for th in ths]
     return out
 
 
@@ -65,8 +78,7 @@ def _imports(mod):
     return out
 
 
-def _downstream_order(gen_module, targets):
-    """project modules in the import closure of `targets` that depend on gen_module, topologically sorted."""
+def _closure(targets):
     closure, todo = {}, list(targets)
     while todo:
         m = todo.pop()
@@ -74,13 +86,10 @@ def _downstream_order(gen_module, targets):
             continue
         closure[m] = _imports(m)
         todo += closure[m]
-    dep = {}
+    return closure
 
-    def depends(m):
-        if m not in dep:
-            dep[m] = False
-            dep[m] = m == gen_module or any(depends(i) for i in closure.get(m, []))
-        return dep[m]
+
+def _topo(closure, targets):
     order, seen = [], set()
 
     def visit(m):
@@ -89,104 +98,136 @@ def _downstream_order(gen_module, targets):
         seen.add(m)
         for i in closure[m]:
             visit(i)
-        if depends(m) and m != gen_module:
-            order.append(m)
+        order.append(m)
     for t in targets:
         visit(t)
-    return order, closure
+    return order
 
 
-def translate(name):
-    t = TIES[name]
-    src = os.path.join(os.environ.get("DSW_REPO", "/repo"), t["source"])
-    text, order = py2lean.translate_source(open(src).read(), os.path.basename(src))
-    return text, order
+_STATE = {}
 
 
-def check(name):
-    """state of the translation tie `name` for the source in $DSW_REPO (see module docstring)."""
-    t = TIES[name]
+def _all_targets():
+    out = []
+    for t in TIES.values():
+        out += sorted({m for m, _ in t["theorems"].values()}) + t.get("extra_modules", [])
+    return [m for m in out if os.path.exists(_mod_path(m))]
+
+
+def state():
+    """translate every generated module, compare with the committed files, re-check what changed.
+    Returns {"changed": [...], "unavailable": reason or None, "compiled": set, "failed": {module: why},
+             "digest": {...}} (memoised per process and, for changed sources, on disk)."""
+    if "s" in _STATE:
+        return _STATE["s"]
     t0 = time.time()
-    committed_path = _mod_path(t["gen_module"])
-    all_fns = sorted(t["theorems"])
+    repo = os.environ.get("DSW_REPO", "/repo")
     try:
-        text, _ = translate(name)
-    except py2lean.Unsupported as ex:
-        return {"tie": name, "status": "unavailable", "reason": "source outside the translator's fragment: %s" % ex,
-                "functions_tied": [], "functions_not_tied": all_fns, "seconds": round(time.time() - t0, 2)}
-    except SyntaxError as ex:
-        return {"tie": name, "status": "unavailable", "reason": "source does not parse: %s" % ex,
-                "functions_tied": [], "functions_not_tied": all_fns, "seconds": round(time.time() - t0, 2)}
-    committed = open(committed_path).read()
-    digest = hashlib.sha256(text.encode()).hexdigest()[:16]
-    if text == committed:
-        return {"tie": name, "status": "holds", "generated_sha256_16": digest,
-                "how": "the definitions generated from %s on this run are identical to %s, which `lake build` compiled and "
-                       "the tie theorems were checked against" % (t["source"], os.path.relpath(committed_path, core.VERIF)),
-                "functions_tied": all_fns, "functions_not_tied": [], "seconds": round(time.time() - t0, 2)}
-    # re-check the tie theorems against the new definitions, in a scratch copy of the build
-    key = hashlib.sha256((core.lean_hash() + text).encode()).hexdigest()[:16]
-    scratch = os.path.join(core.VERIF, ".scratch", "tie-%s-%s" % (name, key))
-    result_file = os.path.join(scratch, "result.json")
-    if os.path.exists(result_file):
-        r = json.load(open(result_file))
-        r["seconds"] = round(time.time() - t0, 2)
-        r["cached"] = True
-        return r
-    shutil.rmtree(scratch, ignore_errors=True)
-    lib = os.path.join(scratch, "lib")
-    os.makedirs(lib)
-    built = os.path.join(core.LEAN, ".lake", "build", "lib", "lean", "DswModel")
-    subprocess.run(["cp", "-rs", built, os.path.join(lib, "DswModel")], check=True)
-    src_dir = os.path.join(scratch, "src")
-    os.makedirs(src_dir)
-    gen_src = os.path.join(src_dir, "Gen.lean")
-    open(gen_src, "w").write(text)
-    targets = sorted({m for m, _ in t["theorems"].values()}) + t.get("extra_modules", [])
-    order, closure = _downstream_order(t["gen_module"], targets)
-    env = dict(os.environ, LEAN_PATH=lib)
-    compiled, failed = set(), {}
+        texts = py2lean.translate_package(repo, tuple(m for m, _, _ in GEN))
+    except (SyntaxError, py2lean.Unsupported, OSError) as ex:
+        s = {"unavailable": "%s: %s" % (type(ex).__name__, ex), "changed": [], "compiled": set(), "failed": {}, "digest": {}}
+        _STATE["s"] = s
+        return s
+    digest, changed = {}, []
+    for m, _, lean_mod in GEN:
+        text = texts[m][0]
+        digest[lean_mod] = hashlib.sha256(text.encode()).hexdigest()[:16]
+        if text != open(_mod_path(lean_mod)).read():
+            changed.append(lean_mod)
+    s = {"unavailable": None, "changed": changed, "compiled": set(), "failed": {}, "digest": digest,
+         "untranslated": {m: dict(texts[m][1].skipped_functions) for m, _, _ in GEN}}
+    if changed:
+        key = hashlib.sha256((core.lean_hash() + "".join(texts[m][0] for m, _, _ in GEN)).encode()).hexdigest()[:16]
+        scratch = os.path.join(core.VERIF, ".scratch", "tie-" + key)
+        result_file = os.path.join(scratch, "result.json")
+        if os.path.exists(result_file):
+            r = json.load(open(result_file))
+            s["compiled"], s["failed"] = set(r["compiled"]), r["failed"]
+        else:
+            shutil.rmtree(scratch, ignore_errors=True)
+            lib = os.path.join(scratch, "lib")
+            os.makedirs(lib)
+            built = os.path.join(core.LEAN, ".lake", "build", "lib", "lean", "DswModel")
+            subprocess.run(["cp", "-rs", built, os.path.join(lib, "DswModel")], check=True)
+            src_dir = os.path.join(scratch, "src")
+            os.makedirs(src_dir)
+            env = dict(os.environ, LEAN_PATH=lib)
 
-    def compile_module(mod, source):
-        base = os.path.join(lib, mod.replace(".", "/"))
-        for ext in (".olean", ".ilean", ".olean.server", ".olean.private"):
-            if os.path.lexists(base + ext):
-                os.remove(base + ext)
-        p = subprocess.run(["lean", "--root=/", "-o", base + ".olean", "-i", base + ".ilean", source], cwd="/", env=env,
-                           capture_output=True, text=True)
-        out = (p.stdout + p.stderr)
-        if p.returncode != 0 or re.search(r"\bdeclaration uses 'sorry'", out):
-            errs = [l for l in out.split("\n") if "error" in l][:3] or out.strip().split("\n")[:3]
-            return False, " | ".join(e[:300] for e in errs)
-        return True, ""
-    ok, err = compile_module(t["gen_module"], gen_src)
-    if not ok:
-        r = {"tie": name, "status": "unavailable", "generated_sha256_16": digest,
-             "reason": "the generated definitions do not compile: " + err,
-             "functions_tied": [], "functions_not_tied": all_fns}
-    else:
-        compiled.add(t["gen_module"])
-        for mod in order:
-            blocked = [i for i in closure[mod] if i in failed]
-            if blocked:
-                failed[mod] = "not re-checked: imports %s, which no longer checks" % ", ".join(blocked)
-                continue
-            ok, err = compile_module(mod, _mod_path(mod))
-            if ok:
-                compiled.add(mod)
-            else:
-                failed[mod] = err
-        tied = sorted(fn for fn, (mod, _) in t["theorems"].items() if mod in compiled)
-        not_tied = sorted(fn for fn in t["theorems"] if fn not in tied)
-        r = {"tie": name, "status": "holds-rechecked" if not not_tied else "broken", "generated_sha256_16": digest,
-             "how": "the source differs from the version the committed definitions were generated from; the tie theorems "
-                    "were re-checked by Lean against the newly generated definitions in a scratch copy of the build",
-             "modules_rechecked": sorted(compiled), "modules_no_longer_checking": failed,
-             "theorems_no_longer_checking": sorted("%s:Dsw.Tie.%s" % (t["theorems"][fn][0], th) for fn in not_tied
-                                                   for th in t["theorems"][fn][1]),
-             "functions_tied": tied, "functions_not_tied": not_tied}
-    # keep the verdict, drop the bulky build products
-    shutil.rmtree(lib, ignore_errors=True)
-    json.dump(r, open(result_file, "w"), indent=1)
-    r["seconds"] = round(time.time() - t0, 2)
-    return r
+            def compile_module(mod, source):
+                base = os.path.join(lib, mod.replace(".", "/"))
+                os.makedirs(os.path.dirname(base), exist_ok=True)
+                for ext in (".olean", ".ilean", ".olean.server", ".olean.private"):
+                    if os.path.lexists(base + ext):
+                        os.remove(base + ext)
+                p = subprocess.run(["lean", "--root=/", "-o", base + ".olean", "-i", base + ".ilean", source], cwd="/", env=env,
+                                   capture_output=True, text=True)
+                out = (p.stdout + p.stderr)
+                if p.returncode != 0 or re.search(r"\bdeclaration uses 'sorry'", out):
+                    errs = [l for l in out.split("\n") if "error" in l][:3] or out.strip().split("\n")[:3]
+                    return False, " | ".join(e[:300] for e in errs)
+                return True, ""
+            targets = _all_targets()
+            closure = _closure(targets)
+            gen_mods = [lm for _, _, lm in GEN]
+            dirty = set(changed)
+            # generated modules first (a changed earlier module makes the later ones dirty too)
+            for m, _, lean_mod in GEN:
+                if lean_mod in dirty or any(i in dirty for i in closure.get(lean_mod, [])):
+                    dirty.add(lean_mod)
+                    srcp = os.path.join(src_dir, m + ".lean")
+                    open(srcp, "w").write(texts[m][0])
+                    blocked = [i for i in closure.get(lean_mod, []) if i in s["failed"]]
+                    if blocked:
+                        s["failed"][lean_mod] = "not re-checked: imports %s" % ", ".join(blocked)
+                        continue
+                    ok, err = compile_module(lean_mod, srcp)
+                    if ok:
+                        s["compiled"].add(lean_mod)
+                    else:
+                        s["failed"][lean_mod] = "the generated definitions do not compile: " + err
+            for mod in _topo(closure, targets):
+                if mod in gen_mods:
+                    continue
+                if not any(i in dirty for i in closure[mod]):
+                    continue                      # not downstream of a changed module: still holds by the build
+                dirty.add(mod)
+                blocked = [i for i in closure[mod] if i in s["failed"]]
+                if blocked:
+                    s["failed"][mod] = "not re-checked: imports %s, which no longer checks" % ", ".join(blocked)
+                    continue
+                ok, err = compile_module(mod, _mod_path(mod))
+                if ok:
+                    s["compiled"].add(mod)
+                else:
+                    s["failed"][mod] = err
+            shutil.rmtree(lib, ignore_errors=True)
+            json.dump({"compiled": sorted(s["compiled"]), "failed": s["failed"]}, open(result_file, "w"), indent=1)
+    s["seconds"] = round(time.time() - t0, 2)
+    _STATE["s"] = s
+    return s
+
+
+def check(name, functions=None):
+    """state of the translation tie `name` (restricted to `functions`) for the source in $DSW_REPO."""
+    t = TIES[name]
+    fns = sorted(f for f in t["theorems"] if functions is None or f in functions)
+    fns = [f for f in fns if os.path.exists(_mod_path(t["theorems"][f][0]))]
+    s = state()
+    if s["unavailable"]:
+        return {"tie": name, "status": "unavailable", "reason": s["unavailable"], "functions_tied": [], "functions_not_tied": fns}
+    if not s["changed"]:
+        return {"tie": name, "status": "holds", "generated_sha256_16": s["digest"],
+                "how": "the definitions generated from the source on this run are identical to the committed "
+                       "lean/DswModel/Gen/*.lean, which `lake build` compiled and the tie theorems were checked against",
+                "functions_tied": fns, "functions_not_tied": [], "seconds": s.get("seconds")}
+    not_tied = sorted(f for f in fns if t["theorems"][f][0] in s["failed"])
+    tied = [f for f in fns if f not in not_tied]
+    return {"tie": name, "status": "holds-rechecked" if not not_tied else "broken", "generated_sha256_16": s["digest"],
+            "how": "the source differs from the version the committed definitions were generated from (%s); the tie theorems "
+                   "downstream were re-checked by Lean against the newly generated definitions in a scratch copy of the build"
+                   % ", ".join(s["changed"]),
+            "modules_rechecked": sorted(s["compiled"]),
+            "modules_no_longer_checking": {m: w for m, w in s["failed"].items()},
+            "theorems_no_longer_checking": sorted("%s:Dsw.Tie.%s" % (t["theorems"][f][0], th) for f in not_tied
+                                                  for th in t["theorems"][f][1]),
+            "functions_tied": tied, "functions_not_tied": not_tied, "seconds": s.get("seconds")}
